@@ -308,6 +308,64 @@ def run(ctx):
     extra = {k for k in writers.get("FrameStream{}", set()) if k not in allow_ctor}
     ctx.check(not extra, "C02-f", "h3::frame::FrameStream", "who may construct", "FrameStream is constructed in %s" % sorted(extra),
               str(sorted(writers.get("FrameStream{}", set()))))
+    # running out of bytes while a frame (or the session id behind a WebTransport signal) is being read means `wait for more`: the
+    # conversion `?` applies to UnexpectedEnd yields Incomplete with the number of bytes needed, not a verdict
+    ue = ru.need(ctx, "C02-b", "<h3::proto::frame::FrameError as core::convert::From<h3::proto::coding::UnexpectedEnd>>::from")
+    if ue:
+        ps_ = [p for p in ru.all_paths(ctx, "C02-b", ue) if p.end == "return"]
+        ok = len(ps_) == 1 and ps_[0].ret_shape() == "FrameError::Incomplete" and ps_[0].ret[0] == "agg" and ps_[0].ret[3] and pa.vfmt(ps_[0].ret[3][0]).startswith("param_1")
+        ctx.check(ok, "C02-b", ue.key, "UnexpectedEnd -> Incomplete(bytes needed)",
+                  "the conversion yields %s: an identifier that is split over two chunks (e.g. the session id of a WebTransport bidirectional stream) "
+                  "becomes a frame error instead of `need more bytes`" % [pa.vfmt(p.ret)[:50] for p in ps_], "")
+    # the look-ahead cursor the frame decoder reads through (buf.rs Cursor over the chunk list): position() is what FrameDecoder later
+    # consumes from the real buffer, so every step of advance() adds to pos_total exactly what it takes off the count (conservation):
+    # crossing a chunk boundary adds the rest of that chunk and takes the same amount off; the last step adds what is left
+    ca = ru.need(ctx, "C02-f", "<h3::buf::Cursor as bytes::buf::buf_impl::Buf>::advance")
+    if ca:
+        heads_ = ca.loop_heads()
+        exc = pa.Explorer(prog, ca, max_visits=1)
+        nstep = 0
+
+        def addend(v, base):
+            while v[0] == "proj" and tuple(n_.lstrip(".") for n_ in v[2]) == ("0",):
+                v = v[1]
+            if v[0] == "binop" and v[1].replace("WithOverflow", "") == "Add" and base in (v[2], v[3]):
+                return v[3] if v[2] == base else v[2]
+            return None
+
+        def subtrahend(v, base):
+            while v[0] == "proj" and tuple(n_.lstrip(".") for n_ in v[2]) == ("0",):
+                v = v[1]
+            if v[0] == "binop" and v[1].replace("WithOverflow", "") == "Sub" and v[2] == base:
+                return v[3]
+            return None
+        for h_ in heads_:
+            for p in exc.paths(start=h_, stop_at=heads_):
+                tot = [e for e in p.stores() if pa.vfmt(e[4]).endswith(".pos_total")]
+                if not tot:
+                    continue
+                nstep += 1
+                x = addend(tot[-1][3], ("param", 1, ("pos_total",))) or addend(tot[-1][3], ("param", 1, (".pos_total",)))
+                if p.end == "stop":
+                    y = subtrahend(p.env.get(2, ("?",)), ("param", 2, ()))
+                    ok = len(tot) == 1 and x is not None and y is not None and x == y
+                    what = "a step that goes on adds %s to the position and takes %s off the count" % (pa.vfmt(x)[:50] if x else "?", pa.vfmt(y)[:50] if y else "?")
+                else:
+                    ok = len(tot) == 1 and x == ("param", 2, ())
+                    what = "the last step adds %s to the position, the count left is %s" % (pa.vfmt(x)[:50] if x else "?", "param_2")
+                ctx.check(ok, "C02-f", ca.key, "every step of Cursor::advance moves the position by what it takes off the count",
+                          "%s: position() over- or under-counts what was read whenever one advance crosses a chunk boundary, and the frame decoder "
+                          "then consumes the wrong number of bytes from the stream" % what, "", None, p.describe())
+        ctx.floor("C02-f", "steps of Cursor::advance that move the position", nstep, 2)
+    # what the transport delivers reaches the frame reader in full
+    shared.push_bytes_takes_everything(ctx, "C02-f")
+    # the transport's bare end-of-stream flag says nothing about frames that are buffered and not yet handed out: only the frame
+    # reader combines it with the buffer (FrameStream::is_eos / try_recv); a verdict taken from the flag alone skips those frames
+    eosc = sorted({c.key for c, bb, t in prog.callers_of("h3::stream::BufRecvStream::is_eos")})
+    ctx.check(set(eosc) <= {"h3::frame::FrameStream::is_eos", "h3::frame::FrameStream::try_recv"} and bool(eosc), "C02-d", "h3::stream::BufRecvStream::is_eos",
+              "who may read the transport's end-of-stream flag",
+              "BufRecvStream::is_eos (the FIN flag, whatever is still buffered) is read in %s: outside the frame reader a decision taken from it "
+              "skips the frames buffered behind an already-seen FIN (a truncated last frame is then not reported as H3_FRAME_ERROR)" % eosc, str(eosc))
     ctx.check(writers.get("expected", set()) <= {"h3::frame::FrameDecoder::decode"}, "C02-f", "h3::frame::FrameDecoder.expected", "who may write",
               "FrameDecoder.expected is assigned in %s" % sorted(writers.get("expected", set())), str(sorted(writers.get("expected", set()))))
     # constructors: new starts at 0, split's receive half keeps the state
